@@ -221,6 +221,9 @@ func VerifC04_DepthGuardNoResidue() {
 	deep := routeOf(ret(ast.FunctionCallExpr{Name: "f"}))
 	in.LoadModule(ast.Module{Items: []ast.Item{fn, deep}})
 	n := 1 + zzverif.Choice("overflows", 3)*6 // 1, 7 or 13 over-deep requests
+	if !zzverif.Symbolic() && n > 1 {
+		n = 520 // natively the real limit (500) applies: as many overflows as it takes to use it up one level at a time
+	}
 	entry := zzverif.Choice("entry", 2)
 	for k := 0; k < n; k++ {
 		zzverif.Obligation("over-deep evaluation ends")
